@@ -9,9 +9,36 @@ import (
 	"path/filepath"
 	"strings"
 
+	"github.com/dlclark/regexp2"
 	"github.com/ollama/ollama/model"
 	"verifharness/hx"
 )
+
+// the Unicode classes the pre-tokeniser patterns mention, as the REAL engine (same options as NewBytePairEncoding)
+// assigns them to single runes; order = bit index of the mask handed to the Coq model
+var classPatterns = []string{`\p{L}`, `\p{N}`, `\s`, `\p{Lu}`, `\p{Lt}`, `\p{Lm}`, `\p{Lo}`, `\p{Ll}`, `\p{M}`}
+var classRes []*regexp2.Regexp
+var classCache = map[rune]int{}
+var preCache = map[string]*model.BytePairEncoding{}
+
+func classMask(r rune) int {
+	if m, ok := classCache[r]; ok {
+		return m
+	}
+	if classRes == nil {
+		for _, p := range classPatterns {
+			classRes = append(classRes, regexp2.MustCompile(`\A`+p+`\z`, regexp2.Unicode|regexp2.RE2))
+		}
+	}
+	m := 0
+	for i, re := range classRes {
+		if ok, _ := re.MatchRunes([]rune{r}); ok {
+			m |= 1 << i
+		}
+	}
+	classCache[r] = m
+	return m
+}
 
 const llamaPre = `(?i:'s|'t|'re|'ve|'m|'ll|'d)|[^\r\n\p{L}\p{N}]?\p{L}+|\p{N}{1,3}| ?[^\s\p{L}\p{N}]+[\r\n]*|\s*[\r\n]+|\s+(?!\S)|\s+`
 
@@ -106,7 +133,11 @@ func main() {
 			if err != nil {
 				return map[string]any{"harness_error": err.Error()}
 			}
-			bpe := model.NewBytePairEncoding(llamaPre, v)
+			pre := llamaPre
+			if p, ok := c["pre"].(string); ok && p != "" {
+				pre = p
+			}
+			bpe := model.NewBytePairEncoding(pre, v)
 			toks[c["name"].(string)] = &tok{kind: "bpe", bpe: &bpe, v: v, n: len(v.Values)}
 			return map[string]any{"ok": true, "n": len(v.Values), "merges": len(v.Merges), "specials": hx.HexList(v.SpecialVocabulary())}
 		case "vocab":
@@ -132,6 +163,25 @@ func main() {
 			}
 			toks[c["name"].(string)] = t
 			return map[string]any{"ok": true, "n": len(v.Values), "specials": hx.HexList(v.SpecialVocabulary())}
+		case "pretok":
+			// the real BytePairEncoding.split (regexp2) for a pattern, plus the classes of the runes of the text
+			pre := c["pre"].(string)
+			bpe := preCache[pre]
+			if bpe == nil {
+				b := model.NewBytePairEncoding(pre, &model.Vocabulary{})
+				bpe = &b
+				preCache[pre] = bpe
+			}
+			text := hx.Unhex(c["text"])
+			cls := [][]int{}
+			seen := map[rune]bool{}
+			for _, r := range []rune(text) {
+				if !seen[r] {
+					seen[r] = true
+					cls = append(cls, []int{int(r), classMask(r)})
+				}
+			}
+			return map[string]any{"pieces": hx.HexList(bpe.VerifSplit(text)), "classes": cls}
 		case "vlookup":
 			// what the real Vocabulary answers for strings / merge pairs (used to validate the sparse tables
 			// that props/c20.py hands to the Coq model for the 128k-token vocabulary)
@@ -164,6 +214,15 @@ func main() {
 					splits = append(splits, hx.HexList(t.bpe.VerifSplit(f)))
 				}
 				out["splits"] = splits
+				cls := [][]int{}
+				seen := map[rune]bool{}
+				for _, r := range []rune(text) {
+					if !seen[r] {
+						seen[r] = true
+						cls = append(cls, []int{int(r), classMask(r)})
+					}
+				}
+				out["classes"] = cls
 			} else {
 				tp = *t.spm
 			}
